@@ -125,7 +125,7 @@ func zxC14Insert() {
 // C16.I — table.insert over an arbitrary byte buffer: it returns (never panics out), and a valid
 // entry offered afterwards is still inserted.
 //
-//zx:harness prop=C16 id=C16.I tier=quick L=20 maxconc=80 thorough.L=24 thorough.shard=len:25
+//zx:harness prop=C16 id=C16.I tier=quick L=20 maxconc=80 thorough.L=24 thorough.maxconc=200 thorough.shard=len:25
 func zxC16InsertGarbage() {
 	t, rs := zxInsertTable(core.Fields{core.PointsField, zxFieldA}, time.Hour)
 	L := vrtParam("L", 20)
